@@ -32,6 +32,15 @@ CHECKS = {
         note="Target/update contents chosen per seed; coordinates in range; for set_at any competing value is accepted at a multiply addressed element. " + LIMITS,
         technique="bounded exhaustive enumeration of descriptions and coordinate tensors, differential against an explicit loop",
         design="4/C14"),
+    "C11": dict(
+        level="model_checking",
+        text="Explicit-state breadth-first search over event histories (register, register_on_import with healthy/failing factories, module import, every lookup form, "
+             "enter/exit) executed on fresh instances of the real BackendRegistry with synthetic backends; states deduplicated by a canonical form of every registry "
+             "field; every lookup after every reachable history is compared with a reference precedence function; plus the same precedence probed on the real global "
+             "registry. All reachable states within the depth bound are covered, which is what 'does not depend on registration order or earlier lookups' needs.",
+        note="Depth bound 6 (quick) / 7 (thorough); 7 synthetic backends in 3 frameworks; tensors of a framework only after its module is imported; distinct backend names. " + LIMITS,
+        technique="explicit-state BFS over the real registry transition functions with canonical-state deduplication, reference precedence model checked on every transition",
+        design="4/C11"),
     "C12": dict(
         level="exploration",
         text="Bounded exhaustive input enumeration of the real parser: every token sequence up to the length bound over the notation's alphabet, "
